@@ -581,7 +581,17 @@ type Runner struct {
 func (rn *Runner) timed(f func()) string {
 	done := make(chan struct{})
 	start := time.Now()
-	go func() { defer close(done); f() }()
+	go func() {
+		defer close(done)
+		// a panic inside the library ends the call: it is recorded, and the scenario goes on with whatever
+		// result variables the call had set by then (the monitors then judge what the panic left behind)
+		defer func() {
+			if x := recover(); x != nil {
+				rn.Rec.Emit("panic", "text", fmt.Sprint(x))
+			}
+		}()
+		f()
+	}()
 	bound := Watchdog
 	if rn.stall {
 		bound = StallBound
